@@ -10,10 +10,11 @@ import GoDebian.Drv.Deb
 import GoDebian.Drv.Changelog
 import GoDebian.Drv.Hashio
 import GoDebian.Drv.BuildOrder
+import GoDebian.Drv.Clearsign
 
 open GoDebian GoDebian.Drv
 
-def handlers : List Handler := [versionHandler, dependencyHandler, deb822Handler, codecHandler, debHandler, changelogHandler, hashioHandler, buildOrderHandler]
+def handlers : List Handler := [versionHandler, dependencyHandler, deb822Handler, codecHandler, debHandler, changelogHandler, hashioHandler, buildOrderHandler, clearsignHandler]
 
 def dispatch (line : String) : String :=
   match (line.splitOn " ").filter (· ≠ "") with
